@@ -332,7 +332,7 @@ def xc_page(idx, pfn, ps=4096, be=False):
 
 
 def write_xc_core(path, entries, p2m=True, ps=4096, be=False, machine="x86_64", map_off=0x1000,
-                  sect_order=None, pad_entries=0, note_name=b".note.Xen"):
+                  sect_order=None, pad_entries=0, note_name=b".note.Xen", prstatus=None):
     """entries: list of (pfn, mfn) (mfn ignored for the pfn-only layout).  The page list section
     (.xen_p2m: 16-byte (pfn, gmfn) records; .xen_pfn: 8-byte pfn records) is put at file offset
     `map_off` (>= 0x800, any alignment), `.xen_pages` on the next page boundary after it.
@@ -340,13 +340,16 @@ def write_xc_core(path, entries, p2m=True, ps=4096, be=False, machine="x86_64", 
     `pad_entries` trailing bytes (< record size) are added to the section size (ignored by the reader).
     `note_name`: the library takes the page size from the DUMPCORE_HEADER note only if the note is
     named ".note.Xen"; with the name "Xen" the header note is ignored and the architecture default applies.
+    `prstatus`: bytes of a `.xen_prstatus` section (register records of the virtual CPUs), stored
+    behind the pages; None = no such section.
     Returns dict(pages_off=, map_off=)."""
     E = ">" if be else "<"
     n = len(entries)
     entsz = 16 if p2m else 8
     assert map_off >= 0x800
-    strtab = b"\0.shstrtab\0.note.Xen\0.xen_pages\0.xen_p2m\0.xen_pfn\0"
-    name = {k: strtab.index(b"\0" + k.encode() + b"\0") + 1 for k in (".shstrtab", ".note.Xen", ".xen_pages", ".xen_p2m", ".xen_pfn")}
+    strtab = b"\0.shstrtab\0.note.Xen\0.xen_pages\0.xen_p2m\0.xen_pfn\0.xen_prstatus\0"
+    name = {k: strtab.index(b"\0" + k.encode() + b"\0") + 1
+            for k in (".shstrtab", ".note.Xen", ".xen_pages", ".xen_p2m", ".xen_pfn", ".xen_prstatus")}
     map_size = n * entsz + pad_entries
     pages_off = (map_off + map_size + ps - 1) // ps * ps
     if pages_off == 0:
@@ -361,9 +364,12 @@ def write_xc_core(path, entries, p2m=True, ps=4096, be=False, machine="x86_64", 
                shdr(name[".xen_pages"], 1, pages_off, n * ps)]
     if sect_order:
         payload = [payload[i] for i in sect_order]
+    prst_off = pages_off + n * ps
+    if prstatus is not None:
+        payload.append(shdr(name[".xen_prstatus"], 1, prst_off, len(prstatus)))
     sh = shdr(0, 0, 0, 0) + shdr(name[".shstrtab"], 3, 0x200, len(strtab)) + b"".join(payload)
     ident = b"\x7fELF" + bytes([2, 2 if be else 1, 1, 0]) + b"\0" * 8
-    eh = ident + struct.pack(E + "HHIQQQIHHHHHH", 4, EM[machine], 1, 0, 0, 0x40, 0, 64, 56, 0, 64, 5, 1)
+    eh = ident + struct.pack(E + "HHIQQQIHHHHHH", 4, EM[machine], 1, 0, 0, 0x40, 0, 64, 56, 0, 64, 2 + len(payload), 1)
     with open(path, "wb") as f:
         f.write(eh)
         f.seek(0x40); f.write(sh)
@@ -379,6 +385,8 @@ def write_xc_core(path, entries, p2m=True, ps=4096, be=False, machine="x86_64", 
         for i, e in enumerate(entries):
             f.write(xc_page(i, e[0], ps))
         f.truncate(max(f.tell(), pages_off + n * ps, pages_off))
+        if prstatus is not None:
+            f.seek(prst_off); f.write(prstatus)
     return dict(pages_off=pages_off, map_off=map_off)
 
 
